@@ -18,7 +18,8 @@ RULE = ("closed store graph of config tiny (a[2], s, b[1]@0x401/1/1; 2 values pe
         "1..N members over the member alphabet, run bundled and unbundled. non-trivial = distinct (state, list) with >= 2 "
         "members containing a write or a refused member")
 BOUNDS = {
-    "quick": "INT on the object seam: 15-member alphabet (incl. an attribute read of the Identity object), lists of length 1..3 (3615 lists) from all 16 states; SINT (1-byte elements: "
+    "quick": "INT with the reply budget Logix.MAX_BYTES scaled down to 6 bytes (a whole tag just fits one fragment), lists of length 1..2; "
+             "INT on the object seam: 15-member alphabet (incl. an attribute read of the Identity object), lists of length 1..3 (3615 lists) from all 16 states; SINT (1-byte elements: "
              "odd-length member replies) through whole frames (logix.process): lists of length 1..2",
     "thorough": "INT and REAL on the object seam with the 20-member alphabet, lists of length 1..3 (8420) from 16 states, length 4 "
                 "over an 8-member sub-alphabet; SINT, LINT, SSTRING through whole frames, lists of length 1..3 over 10 members",
@@ -81,7 +82,8 @@ def encode(m):
 def get_rig(cfgkey):
     """fresh simulator per state expansion (see props/c03_tags.get_rig)"""
     typ, variant, nvals, seam, via_main = cfgkey[:5]
-    return TS.Rig(TS.config(typ, variant), seam=seam, via_main=via_main)
+    max_bytes = cfgkey[8] if len(cfgkey) > 8 else None      # scaled-down reply budget (Logix.MAX_BYTES): a bundle's members
+    return TS.Rig(TS.config(typ, variant), seam=seam, via_main=via_main, max_bytes=max_bytes)   # must not eat into each other's
 
 
 def exec_raw(rig, cip):
@@ -193,11 +195,13 @@ def all_lists(typ, cfgkey):
 
 def run(ctx):
     if ctx.quick:
-        keys = [("INT", "tiny", 2, "cm", False, 15, 3, 0), ("SINT", "tiny", 2, "rr", True, 15, 2, 0)]   # SINT: odd-length replies
+        keys = [("INT", "tiny", 2, "cm", False, 15, 3, 0), ("SINT", "tiny", 2, "rr", True, 15, 2, 0),   # SINT: odd-length replies
+                ("INT", "tiny", 2, "cm", False, 15, 2, 0, 6)]      # reply budget of 6 bytes: a whole tag just fits one fragment
     else:
         keys = [("INT", "tiny", 2, "cm", False, 21, 3, 4), ("REAL", "tiny", 2, "cm", True, 21, 3, 0),
                 ("USINT", "tiny", 2, "rr", False, 10, 3, 0), ("LINT", "tiny", 2, "rr", True, 10, 3, 0), ("BOOL", "tiny", 2, "cm", False, 14, 3, 0),
-                ("SSTRING", "tiny", 2, "rr", False, 10, 3, 0)]
+                ("SSTRING", "tiny", 2, "rr", False, 10, 3, 0),
+                ("INT", "tiny", 2, "cm", False, 21, 3, 0, 6), ("LINT", "tiny", 2, "rr", False, 21, 2, 0, 16)]
     roots = []
     for k in keys:
         cfg = TS.config(k[0], k[1])
